@@ -499,6 +499,30 @@ func runFaultCheck(c *explore.Ctx, id string, cfgs []string, histories [][]strin
 		for _, p := range plans {
 			tasks = append(tasks, faultTask{Cfg: h.cfg, Ops: h.ops, Faults: []faultSpec{p}, Probe: id == "C09"})
 		}
+		hasRe := false
+		for _, op := range h.ops {
+			if op == "re" {
+				hasRe = true
+			}
+		}
+		if hasRe && len(h.ops) <= 4 {
+			// recovery with TWO journals that both hold data needs a flush that did not happen
+			// before Close: the first fault makes every table creation fail three times (the flush
+			// of the frozen buffer keeps failing until Close interrupts it), the second one hits
+			// the journals during the reopen - positions the fault-free baseline does not have,
+			// so they are enumerated blindly (a plan that never fires costs one run)
+			first := faultSpec{Kind: int(vstor.KCreate), Type: int(storage.TypeTable), Nth: 1, Count: 3, Mode: int(vstor.ModeFail), Name: "create/table#1 x3 mode0"}
+			for nth := 1; nth <= 3; nth++ {
+				for pos := 0; pos <= 3; pos++ {
+					tasks = append(tasks, faultTask{Cfg: h.cfg, Ops: h.ops, Probe: id == "C09", Faults: []faultSpec{first,
+						{Kind: int(vstor.KRead), Type: int(storage.TypeJournal), Nth: nth, Count: 1, Mode: int(vstor.ModeFlip), Pos: pos, Name: fmt.Sprintf("read/journal#%d x1 mode2 pos%d", nth, pos)}}})
+				}
+				tasks = append(tasks, faultTask{Cfg: h.cfg, Ops: h.ops, Probe: id == "C09", Faults: []faultSpec{first,
+					{Kind: int(vstor.KOpen), Type: int(storage.TypeJournal), Nth: nth, Count: 1, Mode: int(vstor.ModeFail), Name: fmt.Sprintf("open/journal#%d x1 mode0", nth)}}})
+				tasks = append(tasks, faultTask{Cfg: h.cfg, Ops: h.ops, Probe: id == "C09", Faults: []faultSpec{first,
+					{Kind: int(vstor.KWrite), Type: int(storage.TypeJournal), Nth: nth, Count: 1, Mode: int(vstor.ModePartial), Name: fmt.Sprintf("write/journal#%d x1 mode1", nth)}}})
+			}
+		}
 		if double && len(h.ops) <= 2 {
 			// pairs of single faults (first: fail once; second: any plan)
 			for a := 0; a < len(plans); a++ {
